@@ -95,7 +95,11 @@ def one_schedule(sched_mod, lp, policy, T: int, inputs, early, fail, reuse: str,
         pool = lp.LazyPool(T)
         try:
             with pool:
-                for i, result in enumerate(pool.imap_unordered(func, source())):
+                # the input is handed over as a generator, a range or a list (Sized inputs take other paths in
+                # code that looks at len())
+                given = source() if (not finite or STATE.get("input_kind", 0) == 0) else (
+                    range(inputs) if STATE["input_kind"] == 1 else list(range(inputs)))
+                for i, result in enumerate(pool.imap_unordered(func, given)):
                     out.append(result)
                     if early is not None and i + 1 >= early:
                         break
@@ -207,6 +211,8 @@ def run_controlled(case: dict) -> dict:
         seed = rng.randrange(1 << 30)
         policy = make_policy(sched_mod, case["policy"], seed)
         fail_type = rng.choice(sorted(FAIL_TYPES)) if fail is not None else "exception"
+        STATE["input_kind"] = rng.randrange(3)
+        obs[f"input_kind:{('generator', 'range', 'list')[STATE['input_kind']]}"] += 1
         verdict, sched = one_schedule(sched_mod, lp, policy, T, n if n is not None else "inf", early, fail, reuse,
                                       fail_type)
         obs["schedules"] += 1
@@ -257,6 +263,7 @@ def run_dfs(case: dict) -> dict:
             break
         prefix = stack.pop()
         policy = sched_mod.ReplayPolicy(prefix)
+        STATE["input_kind"] = (T + n) % 3
         verdict, sched = one_schedule(sched_mod, lp, policy, T, n, early, fail, "after-exit" if n <= 1 else "none",
                                       fail_type)
         explored += 1
@@ -321,7 +328,8 @@ def run_stress(case: dict) -> dict:
         STATE["stress"] = {"T": T, "n": n, "early": early, "fail": fail}
         try:
             with lp.LazyPool(T) as pool:
-                for i, result in enumerate(pool.imap_unordered(func, range(n))):
+                given = range(n) if rng.random() < 0.5 or n > 10 ** 6 else iter(range(n))
+                for i, result in enumerate(pool.imap_unordered(func, given)):
                     out.append(result)
                     if rng.random() < 0.2:
                         time.sleep(0.001)
